@@ -335,7 +335,8 @@ fn main() {
     ctx.rule("in-place ops: equilibrium/map_in_place/zip_map_in_place/write/add_in_place/add_in_place_with_amp_per_channel for every length pair (la, lb) in 0..=5^2 over 6 frame types: equal lengths => element-wise real frame op, different => panic with the destination bit-identical and the closure never called");
     let mut evals = 0u64;
     for (fmt, n, f) in &table {
-        for l in 0..=3 * n + 2 {
+        // every L up to 3N+2, plus two long slices (scale probes)
+        for l in (0..=3 * n + 2).chain([100 * n, 100 * n + 1]) {
             let case = json!({"sys": "view", "fmt": fmt, "n": n, "l": l});
             guard::enter(&case.to_string());
             evals += 1;
